@@ -181,13 +181,13 @@ def isNilOrEmpty : Val → Bool
   | _ => false
 
 /-- reply and finding for one `val` op -/
-def answer (cfg : Hv.SdkValues.Cfg) (slot : String) (k : Kind) (om : Bool) (v : Val) (first : Option Val := none) : String :=
+def answer (cfg : Hv.SdkValues.Cfg) (lib : Lib) (slot : String) (k : Kind) (om : Bool) (v : Val) (first : Option Val := none) : String :=
   -- a profile field goes through the same typed conversions as the catalog value
   let r := if slot == "b" then bodyRT cfg k om v
     else match first with
-      | some v1 => valueUpdRT cfg gobLib k om v1 v
-      | none => valueRT cfg gobLib k om v
-  let stale := slot != "b" && first.isSome && r != valueRT cfg gobLib k om v
+      | some v1 => valueUpdRT cfg lib k om v1 v
+      | none => valueRT cfg lib k om v
+  let stale := slot != "b" && first.isSome && r != valueRT cfg lib k om v
   match r with
   | .err =>
     let refused := k == .array || (match v with | .str false _ => true | _ => false)
@@ -214,7 +214,13 @@ structure ShapeFacts where
   profileSkipsUnexported : Bool
   dashIsSkip : Bool
 
-def step (cfg : Cfg) (vcfg : Hv.SdkValues.Cfg) (sh : ShapeFacts) (_ : Unit) (line : String) : Unit × String :=
+/-- `mval` / `mupd` / `mpupd`: the same op on a swamp registered with EncodingMsgPack -/
+def libOf (line : String) : Hv.SdkValues.Lib × String :=
+  if line.startsWith "mval " || line.startsWith "mupd " || line.startsWith "mpupd " then (Hv.SdkValues.msgpackLib, (line.drop 1).toString)
+  else (Hv.SdkValues.gobLib, line)
+
+def step (cfg : Cfg) (vcfg : Hv.SdkValues.Cfg) (sh : ShapeFacts) (_ : Unit) (line0 : String) : Unit × String :=
+  let (lib, line) := libOf line0
   match line.splitOn " " with
   | ["case", _] => ((), line)
   | ["tag", h] =>
@@ -238,7 +244,7 @@ def step (cfg : Cfg) (vcfg : Hv.SdkValues.Cfg) (sh : ShapeFacts) (_ : Unit) (lin
       | none => ((), "bad-op")
       | some v =>
         if (slot != "v" && slot != "b" && slot != "p") || (om != "0" && om != "1") then ((), "bad-op")
-        else ((), V.answer vcfg slot k (om == "1") v)
+        else ((), V.answer vcfg lib slot k (om == "1") v)
   | ["upd", slot, kind, om, d1, d2] =>
     match V.kindOf kind with
     | none => ((), "bad-op")
@@ -247,7 +253,7 @@ def step (cfg : Cfg) (vcfg : Hv.SdkValues.Cfg) (sh : ShapeFacts) (_ : Unit) (lin
       | some v1, some v2 =>
         if (slot != "v" && slot != "b" && slot != "p") || (om != "0" && om != "1") then ((), "bad-op")
         -- the second save replaces the first one entirely: what comes back is the round trip of the LAST value
-        else ((), V.answer vcfg slot k (om == "1") v2 (some v1))
+        else ((), V.answer vcfg lib slot k (om == "1") v2 (some v1))
       | _, _ => ((), "bad-op")
   | ["pupd", kind, mode, d1, d2] =>
     match V.kindOf kind with
@@ -258,17 +264,20 @@ def step (cfg : Cfg) (vcfg : Hv.SdkValues.Cfg) (sh : ShapeFacts) (_ : Unit) (lin
         if !(["n", "o", "d", "x"].contains mode) then ((), "bad-op") else
         let om := mode == "o" || mode == "d"
         let del := mode == "d" || mode == "x"
-        match Hv.SdkValues.profileUpdRT vcfg Hv.SdkValues.gobLib k om del v1 v2 with
+        match Hv.SdkValues.profileUpdRT vcfg lib k om del v1 v2 with
         | .err => ((), "err")
         | .ok w =>
           if w == v2 then ((), "same")
           else if V.isNilOrEmpty v2 && V.isNilOrEmpty w then ((), "nilempty\t#F:C22-gob-nil-empty")
           else if w == v1
           then ((), "stale" ++ (if mode == "o" then "" else "\t#F:C22-void-overwrite-keeps-old-value"))
-          else if mode == "o" && some w == (match Hv.SdkValues.valueRT vcfg Hv.SdkValues.gobLib k false v1 with | .ok x => some x | .err => none)
+          else if mode == "o" && some w == (match Hv.SdkValues.valueRT vcfg lib k false v1 with | .ok x => some x | .err => none)
           then ((), "diff")     -- the stale value, itself changed by its own round trip (a truncated time)
           else ((), "diff\t#F:C22-value-conversion")
       | _, _ => ((), "bad-op")
+  | ["many", v] =>
+    -- the read loops hand every record to the iterator as it was saved (structural: outside the Lean model)
+    ((), if v == "value" || v == "body" then "rm=ok rb=ok rs=ok" else if v == "profile" then "pb=ok" else "bad-op")
   | ["shape", nm] =>
     -- structural shapes are outside the Lean model: expected outcomes keyed by the extracted facts
     let r : String :=
